@@ -17,14 +17,14 @@ import rules_name
 
 PROPS = {
     "C02": {
-        "rules": [rules_wt.run, rules_follow.make("R-HDR", "C02")],
+        "rules": [rules_wt.run, rules_follow.make("R-HDR", "C02"), rules_follow.make("R-INIT", "C02")],
         "explanation": "R-WT: every store site to an in-memory mirror of on-disk state (cached FAT/DIFAT/DIFAT-sector list, MiniFAT and its start sector, directory entry table, sector count; enumerated automatically from MIR: &mut borrows of mirror fields, stores through dir_entry_mut, direct field stores) is paired in the same function with a file write of the same datum "
                        "(same value by provenance, or write_dir_entry/write_to/seek_within_dir_entry+write_le_u32 of the same entry id at the field's offset), either dominating the store or on every Ok path after it; six listed exceptions with reasons. "
-                       "R-HDR: header counters (words 40/44/60/64/68/72) are rewritten in the same function that changes the chain they count, on every Ok path.",
+                       "R-HDR: header counters (words 40/44/60/64/68/72) are rewritten in the same function that changes the chain they count, on every Ok path. R-INIT: every sector handed out by allocate_sector - reused from the free list or appended - is reset with the caller's initialiser before it is returned (a directory sector recycled without SectorInit::Dir would reopen as garbage entries).",
         "not_decided": "that the bytes reopen to the same state; that the right value is written; crash points inside an operation",
     },
     "C03": {
-        "rules": [rules_follow.make("R-MARK"), rules_follow.make("R-HDR", "C03"), rules_follow.make("R-BLANK"), rules_entry.gstore],
+        "rules": [rules_follow.make("R-MARK"), rules_follow.make("R-HDR", "C03"), rules_follow.make("R-BLANK"), rules_follow.make("R-INIT", "C03"), rules_entry.gstore],
         "explanation": "Format-maintenance obligations visible as code shape: R-MARK (FAT/DIFAT sectors marked as such; allocated cell END_OF_CHAIN before use; freed cells FREE), R-HDR (header counts follow the chains), "
                        "R-BLANK (a removed entry's slot is overwritten with DirEntry::unallocated() on disk), R-GSTORE (no CLSID/timestamps on streams: every store to those fields is dominated by a test excluding ObjType::Stream; only storages are stamped at creation).",
         "not_decided": "single ownership of sectors, no orphans, chain length vs stream size, sibling-tree order and colouring: invariants over the contents of FAT and directory across histories",
@@ -43,9 +43,9 @@ PROPS = {
         "not_decided": "equality with a byte vector for all call sequences and buffer sizes (values of pos/cap/offset/total_len across histories); set_len near u64::MAX",
     },
     "C08": {
-        "rules": [rules_zero.run],
+        "rules": [rules_zero.run, rules_follow.make("R-INIT", "C08")],
         "explanation": "R-ZERO: in the function that stores a stream's new length (resize_stream, reached from Stream::set_len), a zero-fill event (a backend write whose data provenance is io::repeat(0) / [0; N], directly or in a direct helper) exists, is controlled only by the comparison new length > old length, and lies on every path from the 'grows' edge of that comparison to the length store (error exits excepted). "
-                       "Alternatively accepted: zeroing on shrink in both chain kinds plus zeroing of newly allocated mini sectors.",
+                       "Alternatively accepted: zeroing on shrink in both chain kinds plus zeroing of newly allocated mini sectors. R-INIT: regular sectors are reset with the requested initialiser (SectorInit::Zero for stream data) on both the reuse and the append path of allocate_sector.",
         "not_decided": "that the bytes are zero and that the zero-filled range is exactly [old, new): values",
     },
     "C09": {
